@@ -93,12 +93,34 @@ def run_one(choices, params):
     default_snapshot = copy.deepcopy(dict((k, v) for k, v in DEFAULT_CONFIG.items()))
 
     shared = {} if (mode == "isolation" and w.draw(2)) else None
+    owner_view = {}         # what the owner itself has written into `shared` so far
 
     def main(sim, k):
         conns = []
         with pair.Knobs(c):
             for ci, conf in enumerate(confs):
-                if ci == classic_at:
+                if ci == classic_at and shared is not None:
+                    # a classic-mode connection opened with the owner's settings dict: what the classic service switches on
+                    # for its own connection must not end up in that dict (the next connection is opened from it)
+                    from rpyc.core.channel import Channel
+                    from rpyc.core.stream import SocketStream
+                    a, b = k.socketpair()
+                    keys = sorted(conf) if not owner_view else [kk for kk in sorted(conf) if w.draw(2)]
+                    for kk in keys:
+                        shared[kk] = owner_view[kk] = conf[kk]
+                    cbox = {}
+
+                    def b_main(b=b, cbox=cbox):
+                        cbox["cb"] = rpyc.SlaveService()._connect(Channel(SocketStream(b), True), shared)
+                        cbox["cb"].serve_all()
+                    srv = sim.spawn(b_main, _name="B%d.serve_all" % ci)
+                    ca = rpyc.ClassicService()._connect(Channel(SocketStream(a), True), {"connid": "A%d" % ci})
+                    sim.block(lambda: "cb" in cbox or srv.state == core.DONE, 60, "wait-B-connect")
+                    cb = cbox["cb"]
+                    sim.count("c06:settings-dict-reused")
+                    model_conf = dict(DEFAULT_CONFIG)
+                    model_conf.update(allow_all_attrs=True, allow_getattr=True, allow_setattr=True, allow_delattr=True, allow_exposed_attrs=False)
+                elif ci == classic_at:
                     ca, cb, _, srv = pair.connect_pair_serving(k, rpyc.ClassicService(), rpyc.SlaveService())
                     model_conf = dict(DEFAULT_CONFIG)
                     model_conf.update(allow_all_attrs=True, allow_getattr=True, allow_setattr=True, allow_delattr=True, allow_exposed_attrs=False)
@@ -108,8 +130,11 @@ def run_one(choices, params):
                     from rpyc.core.channel import Channel
                     from rpyc.core.stream import SocketStream
                     a, b = k.socketpair()
-                    shared.clear()
-                    shared.update(conf)
+                    # the owner writes the settings it cares about this time (all of them the first time) into its dict
+                    keys = sorted(conf) if not owner_view else [kk for kk in sorted(conf) if w.draw(2)]
+                    for kk in keys:
+                        shared[kk] = owner_view[kk] = conf[kk]
+                    conf = dict(owner_view)
                     ca = rpyc.VoidService()._connect(Channel(SocketStream(a), True), {"connid": "A%d" % ci})
                     cb = rpyc.VoidService()._connect(Channel(SocketStream(b), True), shared)
                     srv = sim.spawn(cb.serve_all, _name="B%d.serve_all" % ci)
